@@ -9,6 +9,9 @@
 Variants rendered per behaviour: balanced with closers; left open (MissEndif expected); wrapped in a macro body that
 ends with EXITM inside the open constructs (RestoreIFs: no error, nothing behind EXITM assembled).
 True conditions are rendered with positive, negative and large values ("true = not 0").
+Target context (CONTEXTS): a share of the skeletons is assembled once more after an OLMS-50 target had been selected
+earlier in the run (CPU switch, SAVE/RESTORE excursion) and FOR the OLMS-50 (keyword SELECT): the construct keyword is a
+function of the current target only (added after the independent seed C12-switch-keyword-survives-cpu-change).
 Verdict-bearing: marker bytes / symbol definitions of selected branches, error-or-not, no crash.
 Mutations of the real code tried: IFB argument loop (found as defect), lone ELSECASE (found as defect), EXITM without
 RestoreIFs (caught), ELSECASE in a skipped region / IFB last-argument-only / ELSEIF negative condition (independent
@@ -79,6 +82,21 @@ SKIPPED_IF_FORMS = ["if NOSUCHSYM", "if 1+", "ifdef", "if 1,2"]  # must not be e
 PREAMBLE = ["\tcpu z80", "DEFD\tequ 1", "USD\tequ 2", "UNUSD\tequ 3", "\tdb USD"]
 NPRE_BYTES = 1
 
+# Target context (dimension added after a seeded change that kept SwitchIsOccupied across a CPU switch): the
+# keyword that opens a SWITCH construct is a function of the CURRENT target only - SELECT on the OLMS-50 family,
+# whose instruction set has a SWITCH of its own (codeol50.c SwitchIsOccupied, asmif.c CodeIFs), SWITCH everywhere
+# else - and never of the targets selected earlier in the run.  The same skeleton must select the same branches
+#   "plain"        cpu z80
+#   "after-olms"   cpu msm5054, then cpu z80 before the skeleton
+#   "save-olms"    cpu z80; SAVE, cpu msm5054, RESTORE before the skeleton
+#   "olms"         the skeleton assembled FOR the OLMS-50 (keyword SELECT, 16-bit DATA words as markers)
+CONTEXTS = {
+    "plain": dict(pre=["\tcpu z80"], kw="switch", dop="db", unit=1),
+    "after-olms": dict(pre=["\tcpu msm5054", "\tcpu z80"], kw="switch", dop="db", unit=1),
+    "save-olms": dict(pre=["\tcpu z80", "\tsave", "\tcpu msm5054", "\trestore"], kw="switch", dop="db", unit=1),
+    "olms": dict(pre=["\tcpu msm5054"], kw="select", dop="data", unit=2),
+}
+
 VALSETS = {
     "int": {"v1": "1", "v2": "2", "v3": "3"},
     "float": {"v1": "1.5", "v2": "2.5", "v3": "3.5"},
@@ -102,11 +120,13 @@ def complete(beh):
     return ["ENDIF" if c == "I" else "ENDCASE" for c in reversed(ctx)]
 
 
-def render(beh, r, balance=True, exitm=False):
+def render(beh, r, balance=True, exitm=False, ctx="plain"):
     """beh: list of steps {s:{k,...}, ifasm, d, errs}.  Returns (source text, expected dict).
     exitm=True: the skeleton is the body of a macro (global symbols) invoked once and ends with EXITM instead of
     the balancing closers (as.c ExpandEXITM -> RestoreIFs); only used where TLC says the EXITM is executed."""
-    lines = list(PREAMBLE)
+    cx = CONTEXTS[ctx]
+    dop = cx["dop"]
+    lines = cx["pre"] + PREAMBLE[1:-1] + ["\t%s USD" % dop]
     if exitm:
         lines += ["wrap\tmacro {GLOBALSYMBOLS}"]
     ifasm_before = True
@@ -135,7 +155,7 @@ def render(beh, r, balance=True, exitm=False):
         elif k == "SWITCH":
             ty = r.choice(list(VALSETS))
             typestack.append(ty)
-            lines.append("\tswitch " + VALSETS[ty][s["v"]])
+            lines.append("\t%s %s" % (cx["kw"], VALSETS[ty][s["v"]]))
         elif k == "CASE":
             ty = None
             for t in reversed(typestack):
@@ -157,17 +177,17 @@ def render(beh, r, balance=True, exitm=False):
             if not sel and wellformed and r.random() < 0.3:
                 lines.append("m%d:\tbogus %d" % (i, i))   # must have no effect in a skipped branch
             else:
-                lines.append("m%d:\tdb %d" % (i, i))
+                lines.append("m%d:\t%s %d" % (i, dop, i))
         ifasm_before = st["ifasm"]
     closers = complete(beh) if (balance and not exitm) else []
     for c in closers:
         lines.append("\t" + c.lower())
     if exitm:
-        lines += ["\texitm", "\tdb 99", "\tendm", "\twrap"]      # the db 99 behind EXITM must never be assembled
+        lines += ["\texitm", "\t%s 99" % dop, "\tendm", "\twrap"]  # the data behind EXITM must never be assembled
     if wellformed and balance:
         for (i, sel) in markers:
-            lines.append("\tdb 100+DEFINED(m%d)" % i)
-    exp = {"wellformed": wellformed, "balanced": balance or not complete(beh),
+            lines.append("\t%s 100+DEFINED(m%d)" % (dop, i))
+    exp = {"wellformed": wellformed, "balanced": balance or not complete(beh), "unit": cx["unit"],
            "bytes": [i for (i, sel) in markers if sel] + [100 + (1 if sel else 0) for (i, sel) in markers]}
     return "\n".join(lines) + "\n", exp
 
@@ -190,7 +210,10 @@ def judge(rep, bld, beh, src, exp, res):
         got = []
         for rec in pr.data_records():
             got += list(rec.data)
-        got = got[NPRE_BYTES:]
+        unit = exp.get("unit", 1)
+        got = got[NPRE_BYTES * unit:]
+        if unit == 2:       # 16-bit marker words, low byte first in the code file
+            got = [got[i] if got[i + 1:i + 2] == [0] else ("bad unit", got[i:i + 2]) for i in range(0, len(got), 2)]
         if got != exp["bytes"]:
             rep.violation("selected branches differ: expected markers+definedness %s, code file has %s"
                           % (exp["bytes"], got), case=prog, files={"a.asm": src}, key=_ifb_key(src, "select"))
@@ -349,6 +372,13 @@ def main(tier):
                 and rr.random() < 0.5:
             src3, exp3 = render(beh, rr, balance=True, exitm=True)   # EXITM inside open IFs: stack restored
             jobs.append((beh, src3, exp3))
+        # target context: a share of the skeletons (more of those with a SWITCH construct) once more in one of
+        # the non-plain contexts (own random stream, so that the programs above stay what they were)
+        rc = rng("c12ctx/%d" % bi)
+        if rc.random() < (0.3 if any(st["s"]["k"] in ("SWITCH", "CASE", "ELSECASE", "ENDCASE") for st in beh) else 0.05):
+            cname = rc.choice(["after-olms", "save-olms", "olms"])
+            src4, exp4 = render(beh, rc, balance=True, ctx=cname)
+            jobs.append((beh, src4, exp4))
 
     with Phase('replay %d programs' % len(jobs)):
         results = aslrun.assemble_many(bld, [{"sources": {"a.asm": src, "incx.inc": "; empty\n"}, "opts": ["-q"]}
